@@ -7,7 +7,7 @@
   `trigRun bars trigs` returns the calls of the actions in order, the triggers still installed, and the exception
   that ended the run, if any.
 -/
-import Proofs.Lemmas.CoreTrigger2
+import Proofs.Lemmas.CoreTrigger3
 import Proofs.Lemmas.CoreActuator6
 namespace Demeter
 open Core
@@ -350,6 +350,12 @@ theorem C18_empty_lists_raise (t : Int) (bars : List Int) (kw : String) :
     (∀ imm pend, (trigRun (t :: bars) (install [(kw, .periods [] imm pend none)])).2.2 = some .indexError) := by
   refine ⟨rfl, rfl, fun _ _ => rfl⟩
 
+/-- the run raises on its first bar **iff** an installed trigger cannot be evaluated (an `AtTimesTrigger` / `TimeRangesTrigger` /
+    `PeriodsTrigger` built from an empty list): with the previous theorems, every other run goes through -/
+theorem C18_raises_iff_malformed (t : Int) (bars : List Int) (trigs : List Trig) (hn : (trigs.map (·.id)).Nodup) :
+    (trigRun (t :: bars) trigs).2.2 ≠ none ↔ ∃ x ∈ trigs, ¬ WF x.k :=
+  raises_iff_malformed t bars trigs hn
+
 /-! ### the behaviour before the repairs (kept as a regression witness) -/
 
 /-- `PeriodsTrigger.when` as it was: return at the first period that is due -/
@@ -370,6 +376,19 @@ theorem C18_unrepaired_periods_starve :
     Core.oldPeriodsFires (grid 60 60 19) [120, 180] [120, 180] = [120, 180, 240, 360, 480, 600, 720, 840, 960, 1080] ∧
     (grid 0 60 20).filter (denotes 0 (.periods [120, 180] false 0)) =
       [120, 180, 240, 360, 480, 540, 600, 720, 840, 900, 960, 1080] := by
+  decide
+
+/-- `PeriodTrigger.when` as it was: the due time is compared by equality only -/
+def Core.oldPeriodFires : List Int → Int → Int → List Int
+  | [], _, _ => []
+  | t :: bars, δ, next => if next = t then t :: Core.oldPeriodFires bars δ (next + δ) else Core.oldPeriodFires bars δ next
+
+/-- a 3-minute period on 5-minute bars from 08:00: the unrepaired comparison never fires (the first due time 08:03 is not a
+    bar and is never advanced); the specification — and the repaired model — fire where the two lattices meet -/
+theorem C18_unrepaired_period_silent_off_grid :
+    Core.oldPeriodFires (grid 29100 300 11) 180 (28800 + 180) = [] ∧
+    (grid 28800 300 12).filter (denotes 28800 (.period 180 false 0)) = [29700, 30600, 31500] ∧
+    (trigRun (grid 28800 300 12) (install [("", .period 180 false 0 none)])).1.map (·.ts) = [29700, 30600, 31500] := by
   decide
 
 /-! ### non-vacuity: concrete runs through the model -/
